@@ -251,10 +251,10 @@ class InstanceArray(_Instance):
         self._initialized = True
 
     def __getitem__(self, idx: int):
-        return RuntimeError(f"Illegal indexing into Array {self}")
+        raise RuntimeError(f"Illegal indexing into Array {self}")
 
     def __setitem__(self, _idx: Any, _val: Any):
-        return RuntimeError(f"Illegal indexing into Array {self}")
+        raise RuntimeError(f"Illegal indexing into Array {self}")
 
 
 """ 
